@@ -242,6 +242,11 @@ class workq:
         j.info.update(info)
 
     def pushjob(self, job):
+        if job.done:
+            # re-queueing (worker disconnected) a job that was killed or
+            # timed out meanwhile: finished jobs are never handed out again
+            return job.jobid
+
         if job.serial is None:
             self.count += 1
             job.serial = self.count
